@@ -27,7 +27,7 @@ SCR = "/tmp/automut"
 CHECKS = {
     "cmb_event.c": ["C01", "C04", "C10"], "cmi_hashheap.c": ["C02", "C01", "C10"],
     "cmb_process.c": ["C04", "C09", "C06", "C08", "C10"],
-    "cmb_resourceguard.c": ["C06", "C08", "C13", "C10"], "cmb_resource.c": ["C05", "C08", "C14", "C10"],
+    "cmb_resourceguard.c": ["C06", "C08", "C13", "C04", "C10"], "cmb_resource.c": ["C05", "C08", "C14", "C10"],
     "cmb_resourcepool.c": ["C07", "C08", "C14", "C10"], "cmb_buffer.c": ["C11", "C08", "C14", "C10"],
     "cmb_objectqueue.c": ["C12", "C08", "C14", "C10"], "cmb_priorityqueue.c": ["C12", "C08", "C14", "C10"],
     "cmb_condition.c": ["C13", "C10"],
